@@ -7,7 +7,7 @@
 (* here (it is API behaviour, module Seeding); AlgOfSeed is the raw         *)
 (* "state whose words are the little-endian words of the seed".            *)
 (***************************************************************************)
-EXTENDS Xoshiro, XorShift, Hc128, Isaac, Pcg32
+EXTENDS Xoshiro, XorShift, Hc128, Isaac, Pcg32, Seeding
 
 XoKinds == Kinds
 LinearKinds == XoKinds \cup {"XorShiftRng"}
@@ -44,4 +44,28 @@ AlgTake(k, s, n) ==
 (* the observable state image: the sequence of state words *)
 AlgImage(k, s) == IF k = "SplitMix64" THEN <<s>> ELSE IF k \in BlockKinds THEN <<>> ELSE s
 AlgIsZero(k, s) == \A i \in 1..Len(AlgImage(k, s)) : IsZero(AlgImage(k, s)[i])
+
+(* ---- seeding (C08, C09): protocol class, draw length, documented u64 expansion ---- *)
+SeedClass(k) == IF k \in XoKinds THEN "remap" ELSE IF k = "XorShiftRng" THEN "redraw"
+                ELSE IF k \in {"IsaacRng", "Isaac64Rng"} THEN "full" ELSE "plain"
+FromRngLen(k) == IF k = "IsaacRng" THEN 1024 ELSE IF k = "Isaac64Rng" THEN 2048 ELSE AlgSeedLen(k)
+(* the first n bytes of the SplitMix64 stream started at x: little-endian next_u64 results *)
+SmBytes(x, n) == SubSeq(BytesOfWords(SmStream(x, (n + 7) \div 8)), 1, n)
+
+(* the state denoted by a descriptor of module Seeding *)
+SeedFromU64State(k, x) ==
+  CASE k \in XoKinds ->
+         LET b == SmBytes(x, AlgSeedLen(k))
+         IN IF AllZero(b) THEN AlgOfSeed(k, SmBytes(Zero(4), AlgSeedLen(k))) ELSE AlgOfSeed(k, b)   \* zero remap = seed_from_u64(0)
+    [] k = "XorShiftRng" -> LET b == PcgBytes(x, 16) IN IF AllZero(b) THEN XsBadSeed ELSE AlgOfSeed(k, b)
+    [] k = "Hc128Rng"    -> AlgOfSeed(k, PcgBytes(x, 32))
+    [] k = "SplitMix64"  -> x
+    [] k = "IsaacRng"    -> IsaacStart(32, KeyWords(32, x), 1)
+    [] k = "Isaac64Rng"  -> IsaacStart(64, KeyWords(64, x), 1)
+ResolveD(k, d) ==
+  CASE d[1] = "verbatim" -> AlgOfSeed(k, d[2])
+    [] d[1] = "const"    -> XsBadSeed
+    [] d[1] = "u64"      -> SeedFromU64State(k, FromNat(d[2], 4))
+    [] d[1] = "full"     -> IF k = "IsaacRng" THEN IsaacStart(32, WordsOfBytes(d[2], 4), 2)
+                            ELSE IsaacStart(64, WordsOfBytes(d[2], 8), 2)
 =============================================================================
